@@ -34,6 +34,9 @@ structure View where
 def view (cfg : Cfg) (w : World) : View :=
   ⟨cur cfg w.trace, w.rs.lastExc, w.rs.lastResult, w.rs.lastClass, w.rs.lastCause, w.rs.lastStop, w.attempts⟩
 
+theorem not_isAbort_of_not_isException (e : Exn) (h : e.isException = false) : e.isAbort = false := by
+  cases e <;> simp_all [Exn.isAbort, Exn.isException]
+
 /-- where a thrown exception came from: an exchange with a callback other than the operation that
     was answered by raising it (or the model-only `stuck`) -/
 def Thrown (t : List (Req × Ans)) (e : Exn) : Prop :=
@@ -125,18 +128,23 @@ theorem metricHook_i (ev : Event) (a s : Nat) (t : Tags) :
 
 attribute [local spec] metricHook_i
 
+/-- what `emit` lets through is not an `Exception` (so never an abort) -/
+abbrev emitPost (cfg : Cfg) (v : View) : PostCond α (.except Exn (.arg World .pure)) :=
+  post⟨fun _ w => ⌜view cfg w = v⌝,
+       fun e w => ⌜Thrown w.trace e ∧ view cfg w = v ∧ e.isException = false⌝⟩
+
 theorem swallow_i (e : Exn) :
-    ⦃fun w => ⌜Thrown w.trace e ∧ view cfg w = v⌝⦄ swallowException e ⦃inertPost cfg v⦄ := by
+    ⦃fun w => ⌜Thrown w.trace e ∧ view cfg w = v⌝⦄ swallowException e ⦃emitPost cfg v⦄ := by
   mvcgen [swallowException]
-  close_i
+  all_goals ((try subst_vars) <;> (try intros) <;> simp_all)
 
 attribute [local spec] swallow_i
 
 theorem emit_i (ev : Event) (a s : Nat) (k : Option EClass) (e : Option Exn) (st : Option StopReason)
     (cs : Option Cause) (cl : Option Classification) :
-    ⦃fun w => ⌜view cfg w = v⌝⦄ emit cfg tl ev a s k e st cs cl ⦃inertPost cfg v⦄ := by
+    ⦃fun w => ⌜view cfg w = v⌝⦄ emit cfg tl ev a s k e st cs cl ⦃emitPost cfg v⦄ := by
   mvcgen [emit]
-  close_i
+  all_goals ((try subst_vars) <;> (try intros) <;> simp_all)
 
 attribute [local spec] emit_i
 
@@ -302,14 +310,15 @@ attribute [local spec] setStop_spec
 theorem stopWith_spec (st : StopReason) (ev : Event) (a : Nat) (k : EClass) (e : Option Exn) (c : Cause) :
     ⦃fun w => ⌜view cfg w = v⌝⦄ stopWith cfg tl st ev a k e c
     ⦃post⟨fun d w => ⌜d = .raise ∧ view cfg w = { v with lastStop := some st }⌝,
-          fun e w => ⌜Thrown w.trace e ∧ view cfg w = { v with lastStop := some st }⌝⟩⦄ := by
+          fun e w => ⌜Thrown w.trace e ∧ view cfg w = { v with lastStop := some st } ∧ e.isException = false⌝⟩⦄ := by
   mvcgen [stopWith]
   close_i
 
 theorem emitAbortedOnce_spec (a : Nat) :
     ⦃fun w => ⌜view cfg w = v⌝⦄ emitAbortedOnce cfg tl a
     ⦃post⟨fun _ w => ⌜view cfg w = { v with lastStop := some .aborted }⌝,
-          fun e w => ⌜Thrown w.trace e ∧ view cfg w = { v with lastStop := some .aborted }⌝⟩⦄ := by
+          fun e w => ⌜Thrown w.trace e ∧ view cfg w = { v with lastStop := some .aborted } ∧
+            e.isException = false⌝⟩⦄ := by
   mvcgen [emitAbortedOnce, getRS]
   close_i
 
@@ -323,12 +332,14 @@ theorem checkAbort_spec (a : Nat) :
     ⦃fun w => ⌜view cfg w = v⌝⦄ checkAbort cfg tl a
     ⦃post⟨fun _ w => ⌜view cfg w = { v with mon := pollStep cfg v.mon }⌝,
           fun e w => ⌜(e ≠ .libAbort → Thrown w.trace e) ∧ (e.isAbort = false → Thrown w.trace e) ∧
-            ((view cfg w).mon.hookFault = false → sameBut v (view cfg w))⌝⟩⦄ := by
+            ((view cfg w).mon.hookFault = false → sameBut v (view cfg w)) ∧
+            (e.isException = true → e ≠ .libAbort → (view cfg w).mon.hookFault = true) ∧
+            cfg.abortIf = true⌝⟩⦄ := by
   have hop : isOp Req.abortIf = false := rfl
   mvcgen [checkAbort, ask]
   all_goals ((try subst_vars) <;> (try intros) <;>
     first
-      | (simp_all +zetaDelta [view, step, pollStep, sameBut, Thrown.head, Thrown.stuck, Exn.isAbort]; done)
+      | (simp_all +zetaDelta [view, step, pollStep, sameBut, Thrown.head, Thrown.stuck, Exn.isAbort, Exn.isException]; done)
       | (simp +zetaDelta [view, pollStep, *]; rfl)
       | skip)
 
@@ -383,7 +394,8 @@ theorem abortOutcome_spec (n : Nat) :
     ⦃fun w => ⌜view cfg w = v⌝⦄ abortOutcome cfg tl n
     ⦃post⟨fun o w => ⌜IsOutcome { v with lastStop := some .aborted } false none n none o ∧
             view cfg w = { v with lastStop := some .aborted }⌝,
-          fun e w => ⌜Thrown w.trace e ∧ view cfg w = { v with lastStop := some .aborted }⌝⟩⦄ := by
+          fun e w => ⌜Thrown w.trace e ∧ view cfg w = { v with lastStop := some .aborted } ∧
+            e.isException = false⌝⟩⦄ := by
   mvcgen [abortOutcome]
   close_i
   all_goals (subst_vars; simp_all +zetaDelta)
@@ -397,7 +409,7 @@ def decisionStop (ls : Option StopReason) : SleepDecision → Option StopReason
 theorem handleSleepDecision_spec (act : SleepDecision) (a d : Nat) :
     ⦃fun w => ⌜view cfg w = v⌝⦄ handleSleepDecision cfg tl act a d
     ⦃post⟨fun r w => ⌜r = act ∧ act ≠ .other ∧ view cfg w = { v with lastStop := decisionStop v.lastStop act }⌝,
-          fun e w => ⌜(act = .other → e = .libValueError) ∧ (act ≠ .other → Thrown w.trace e) ∧
+          fun e w => ⌜(act = .other → e = .libValueError) ∧ (act ≠ .other → Thrown w.trace e ∧ e.isException = false) ∧
             view cfg w = { v with lastStop := decisionStop v.lastStop act }⌝⟩⦄ := by
   mvcgen [handleSleepDecision, getRS]
   all_goals ((try subst_vars) <;> (try intros) <;>
@@ -466,7 +478,7 @@ def sameButH (u v : View) : Prop :=
 /-- what an exception out of the sleep phase leaves behind -/
 def HErr (u v : View) (e : Exn) : Prop :=
   v.mon.opAfterFault = u.mon.opAfterFault ∧ v.mon.hookFault = u.mon.hookFault ∧
-    (e.isAbort = true → sameButH u v)
+    (e.isAbort = true → sameButH u v ∧ (u.mon.deferred = false → v.mon.deferred = false))
 
 macro "close_c" : tactic => `(tactic| all_goals (
   (try subst_vars) <;> (try intros) <;>
@@ -543,7 +555,8 @@ def FinOK (u : View) (d : Decision) (act : Option SleepDecision) (o : AOutcome) 
 theorem finalizeAttempt_spec (u : View) (a : Nat) (d : Decision) (act : Option SleepDecision)
     (cls : Option Classification) (e : Option Exn) (r : Option Nat) (c : Option Cause) :
     ⦃fun w => ⌜view cfg w = u⌝⦄ finalizeAttempt cfg tl a d act cls e r c
-    ⦃cerrPost cfg u fun o w => sameBut u (view cfg w) ∧ FinOK u d act o (view cfg w).lastStop⦄ := by
+    ⦃post⟨fun o w => ⌜sameBut u (view cfg w) ∧ FinOK u d act o (view cfg w).lastStop⌝,
+          fun e w => ⌜Src cfg w e ∧ CErr u (view cfg w) e ∧ e.isException = false⌝⟩⦄ := by
   mvcgen [finalizeAttempt, getRS, elapsed]
   all_goals ((try subst_vars) <;> (try intros) <;>
     first
@@ -568,8 +581,23 @@ theorem sleepAction_spec (u : View) (a sl : Nat) (ctx : BackoffCtx) :
       | (simp_all +zetaDelta [view, sameBut, sameButH, hsame, CErr, HErr, FErr, hard, handlerStep, decisionStop,
           SleepOK, Src]; done)
       | (cases ‹SleepDecision› <;> simp_all +zetaDelta [view, sameBut, sameButH, hsame, CErr, HErr, FErr, hard,
-          handlerStep, decisionStop, SleepOK, Src]; done)
+          handlerStep, decisionStop, SleepOK, Src, Exn.isAbort, not_isAbort_of_not_isException]; done)
       | skip)
+  · rename_i s2 r s1 h1 e' s a2 a1 a0
+    have hm : (view cfg s).mon = handlerStep (view cfg s2).mon sl r := by rw [a0, h1]
+    have hna : e'.isAbort = false := by
+      cases r
+      · exact not_isAbort_of_not_isException _ (a1 (by simp)).2
+      · exact not_isAbort_of_not_isException _ (a1 (by simp)).2
+      · exact not_isAbort_of_not_isException _ (a1 (by simp)).2
+      · rw [a2 rfl]; rfl
+    refine ⟨?_, by rw [hm]; rfl, by rw [hm]; rfl, fun h => by rw [hna] at h; cases h⟩
+    by_cases hr : r = .other
+    · right
+      refine ⟨a2 hr, ?_⟩
+      have : (cur cfg s.trace) = (view cfg s).mon := rfl
+      rw [this, hm, hr]; rfl
+    · exact Or.inl (a1 hr).1
 
 
 attribute [local spec] sleepAction_spec
@@ -611,7 +639,7 @@ theorem failureOutcome_spec (u : View) (a : Nat) (d : Decision) (cls : Option Cl
   all_goals ((try subst_vars) <;> (try intros) <;>
     first
       | (simp_all +zetaDelta [view, sameBut, sameButH, hsame, CErr, HErr, hard, decisionStop, SleepOK, FinOK,
-          FailOK]; done)
+          FailOK, not_isAbort_of_not_isException]; done)
       | exact failOK_of ‹_› ‹_› ‹_›
       | skip)
 
@@ -1496,7 +1524,270 @@ theorem callAdmitted_spec (cfg : Cfg) (hret : cfg.hasRetry = true) :
   all_goals ((try subst_vars) <;> (try intros))
   all_goals (try clear hcb hrun hrs hrc hab hex hec)
   all_goals (try (simp_all +zetaDelta [Fin, Fin.thrown]; done))
-  all_goals trace_state
-  all_goals sorry
+  rename_i h
+  rcases h with h | h
+  · exact Or.inl h
+  · exact Fin.thrown h
+
+/-- `Policy.call` with a retry component (also `RetryPolicy.call`, `@retry`, contexts, async twins) -/
+theorem call_retry_spec (cfg : Cfg) (hret : cfg.hasRetry = true) :
+    ⦃fun w => ⌜cur cfg w.trace = {}⌝⦄ Policy.call cfg
+    ⦃post⟨fun x w => ⌜Fin cfg (.ok x) w⌝, fun e w => ⌜Fin cfg (.error e) w⌝⟩⦄ := by
+  have hic := inv_of_pext polK (fun w => cur cfg w.trace = {}) (fun w0 => initCtx_pext polK w0)
+    (fun w w' h h0 => cur_pext cfg h h0)
+  have hadm := callAdmitted_spec cfg hret
+  have hes := fun r => inv_of_pext polK (Fin cfg r) (fun w0 => ensureSettled_pext polK w0 cfg rfl)
+    (fun w w' h hf => hf.pext h)
+  mvcgen [Policy.call, withFinally, hic, hadm, hes]
+  all_goals ((try subst_vars) <;> (try intros))
+  all_goals (try clear hic hadm hes)
+  all_goals (try (simp_all +zetaDelta [Fin.thrown]; done))
+
+/-! ### the theorems -/
+
+theorem rejected_reverse (t : List (Req × Ans)) : rejected t.reverse = rejected t := by
+  simp [rejected]
+
+theorem raisedBy_reverse (p : Req → Bool) (t : List (Req × Ans)) (e : Exn) :
+    raisedBy p t.reverse e = raisedBy p t e := by
+  simp [raisedBy]
+
+/-- the monitor's verdict for a raised exception, as a Bool -/
+def raisedOk (cfg : Cfg) (s : St) (t : Trace) (ex : Exn) : Bool :=
+  (opRaised s ex && !s.deferred) || raisedByCallback t ex
+  || (match ex with
+      | .libExhausted f => fieldsOk s f
+      | .libRuntimeError => cfg.maxAttempts == 0 && s.ops == 0
+      | .libValueError => s.badDecision
+      | .libAbort => true
+      | .stuck => true
+      | _ => false)
+
+theorem raisedOk_of_errC {cfg : Cfg} {t : List (Req × Ans)} {e : Exn} (h : ErrC cfg (cur cfg t) t e) :
+    raisedOk cfg (run cfg t.reverse) t.reverse e = true := by
+  rw [run_reverse]
+  unfold raisedOk raisedByCallback
+  rw [raisedBy_reverse]
+  rcases h with h | h | h | h | h | h
+  · simp [h.1, h.2]
+  · rcases h with h | h
+    · subst h; simp
+    · simp [h]
+  · subst h; simp
+  · obtain ⟨h1, h2⟩ := h; subst h1; simp [h2]
+  · obtain ⟨f, h1, h2⟩ := h; subst h1; simp [h2]
+  · obtain ⟨h1, h2, h3⟩ := h; subst h1; simp [h2, h3]
+
+theorem ok_unfold (cfg : Cfg) (e : Entry) (t : Trace) (r : Res) :
+    Mon.C04.ok cfg e t r =
+      (if hasLoop cfg e && !e.isExecute && !Mon.rejected t then
+        (match r with
+         | .ret v => (run cfg t).succeeded && !(run cfg t).earlierSuccess && (run cfg t).opVal == some v
+         | .outcome .. => false
+         | .raised ex => raisedOk cfg (run cfg t) t ex)
+      else true) := by
+  unfold Mon.C04.ok raisedOk
+  rfl
+
+/-- the world `runEntry` starts a call from -/
+def startWorld (w : World) : World := { w with trace := [], timeline := [], opCalls := 0 }
+
+theorem cur_start (cfg : Cfg) (w : World) : cur cfg (startWorld w).trace = {} := rfl
+
+/--
+**C04.**  For every configuration, every entry point and every world (every answer stream: outcomes
+of every class, exception- or result-caused, in any order; any callback raising anything at any
+point; any durations), the run satisfies the monitor `Mon.C04.ok`:
+
+* if `call()` returns `v`, the last invocation of the operation returned `v`, that value was
+  classified as success, and no earlier invocation's was;
+* if `call()` raises `ex`, then `ex` is the exception the LAST invocation raised (and no deferral
+  was decided), or one raised by a callback of the caller's, or one the library makes — and a
+  RetryExhaustedError the library makes has `attempts`, `last_class`, `last_result` or
+  `last_exception`, `stop_reason` and `next_sleep_s` describing the final attempt (`fieldsOk`);
+  the library's RuntimeError appears only for `max_attempts = 0`.
+-/
+theorem call_surfaces_last (cfg : Cfg) (e : Entry) (w : World) :
+    Mon.C04.ok cfg e (runEntry cfg e w).2.trace.reverse (runEntry cfg e w).1 = true := by
+  rw [ok_unfold]
+  cases e with
+  | execute => simp [Entry.isExecute]
+  | pexecute => simp [Entry.isExecute]
+  | call =>
+    have := adequacy (runCall_spec cfg) (startWorld w) (cur_start cfg w)
+    simp only [runEntry, startWorld] at this ⊢
+    split at this <;> rename_i heq <;> simp only [heq, toRes]
+    · split
+      · simp only [run_reverse]
+        simp only [view] at this
+        simp [this.1, this.2.1, this.2.2]
+      · rfl
+    · split
+      · exact raisedOk_of_errC this
+      · rfl
+  | pcall =>
+    cases hret : cfg.hasRetry with
+    | false => simp [hasLoop, hret, Entry.isPolicy]
+    | true =>
+      have := adequacy (call_retry_spec cfg hret) (startWorld w) (cur_start cfg w)
+      simp only [runEntry, startWorld] at this ⊢
+      split at this <;> rename_i heq <;> simp only [heq, toRes]
+      · split
+        · simp only [run_reverse]
+          simp only [Fin, view] at this
+          simp [this.1, this.2.1, this.2.2]
+        · rfl
+      · split
+        · rename_i hg
+          simp only [Fin] at this
+          rcases this with h | h
+          · simp [rejected_reverse, Rej] at hg h
+            simp [h] at hg
+          · exact raisedOk_of_errC h
+        · rfl
+
+/-- …and of every call in every script of calls and clock advances on one policy object. -/
+theorem call_surfaces_last_script (cfg : Cfg) : ∀ (steps : List Step) (w : World),
+    ∀ l ∈ (runScript cfg steps w).1, Mon.C04.ok cfg l.entry l.trace l.res = true := by
+  intro steps
+  induction steps with
+  | nil => intro w l hl; simp [runScript] at hl
+  | cons st rest ih =>
+    intro w l hl
+    cases st with
+    | advance d => exact ih _ l (by simpa [runScript] using hl)
+    | run e =>
+      simp only [runScript, List.mem_cons] at hl
+      rcases hl with rfl | hl
+      · exact call_surfaces_last cfg e w
+      · exact ih _ l hl
+
+/-! ### the conjuncts of the property, one by one (corollaries of `call_surfaces_last`) -/
+
+/-- the monitor speaks about this run: a call() entry with a retry loop, not rejected by the breaker -/
+def applies (cfg : Cfg) (e : Entry) (t : Trace) : Bool :=
+  hasLoop cfg e && !e.isExecute && !Mon.rejected t
+
+/-- the exception is one the library makes itself (or the model-only `stuck`) -/
+def libMade : Exn → Bool
+  | .libExhausted _ | .libRuntimeError | .libValueError | .libAbort | .stuck => true
+  | _ => false
+
+section conjuncts
+variable (cfg : Cfg) (e : Entry) (w : World)
+
+/-- **returns_first_success.**  What call() returns is the object the LAST invocation of the
+    operation returned; that invocation's result was classified as success and no earlier
+    invocation's was (so it is the first successful attempt, and the run stopped there). -/
+theorem returns_first_success (v : Nat)
+    (happ : applies cfg e (runEntry cfg e w).2.trace.reverse = true)
+    (hr : (runEntry cfg e w).1 = .ret v) :
+    let s := run cfg (runEntry cfg e w).2.trace.reverse
+    s.opVal = some v ∧ s.succeeded = true ∧ s.earlierSuccess = false := by
+  have h := call_surfaces_last cfg e w
+  rw [ok_unfold, hr] at h
+  unfold applies at happ
+  simp only [happ, if_true, Bool.and_eq_true, beq_iff_eq, Bool.not_eq_true'] at h
+  exact ⟨h.2, h.1.1, h.1.2⟩
+
+/-- **raises_last_exception.**  An exception that comes out of call() and is neither made by the
+    library nor raised by one of the caller's callbacks is the very exception the LAST invocation
+    of the operation raised (identity: the same `Exn` value, with its id) — never an earlier
+    attempt's, never a substitute — and no deferral had been decided. -/
+theorem raises_last_exception (ex : Exn)
+    (happ : applies cfg e (runEntry cfg e w).2.trace.reverse = true)
+    (hr : (runEntry cfg e w).1 = .raised ex)
+    (hcb : raisedByCallback (runEntry cfg e w).2.trace.reverse ex = false)
+    (hlib : libMade ex = false) :
+    let s := run cfg (runEntry cfg e w).2.trace.reverse
+    s.opExc = some ex ∧ s.deferred = false := by
+  have h := call_surfaces_last cfg e w
+  rw [ok_unfold, hr] at h
+  unfold applies at happ
+  simp only [happ, if_true, raisedOk, hcb, Bool.or_false] at h
+  have key : ∀ s : St, libMade ex = false → raisedOk cfg s [] ex = true →
+      s.opExc = some ex ∧ s.deferred = false := by
+    intro s hl hk
+    cases ex <;> simp_all [libMade, opRaised, raisedOk, raisedByCallback, raisedBy]
+  apply key _ hlib
+  simpa [raisedOk, raisedByCallback, raisedBy] using h
+
+/-- … and conversely: if the last invocation raised `ex`, no deferral or invalid sleep decision was
+    made, and what comes out of call() is neither an abort, nor something a callback raised, nor
+    the model-only `stuck`, then what comes out IS `ex` (not a RetryExhaustedError, not a
+    RuntimeError, not a return value). -/
+theorem raises_last_exception_fwd (ex : Exn)
+    (happ : applies cfg e (runEntry cfg e w).2.trace.reverse = true)
+    (hop : (run cfg (runEntry cfg e w).2.trace.reverse).opExc = some ex)
+    (hops : (run cfg (runEntry cfg e w).2.trace.reverse).ops ≠ 0)
+    (hval : (run cfg (runEntry cfg e w).2.trace.reverse).opVal = none)
+    (hd : (run cfg (runEntry cfg e w).2.trace.reverse).deferred = false)
+    (hb : (run cfg (runEntry cfg e w).2.trace.reverse).badDecision = false)
+    (hres : ∀ r, (runEntry cfg e w).1 = .raised r →
+      r ≠ .libAbort ∧ r ≠ .stuck ∧ raisedByCallback (runEntry cfg e w).2.trace.reverse r = false ∧
+        (∀ f, r = .libExhausted f → (run cfg (runEntry cfg e w).2.trace.reverse).recCause = some .exception)) :
+    (runEntry cfg e w).1 = .raised ex := by
+  have h := call_surfaces_last cfg e w
+  rw [ok_unfold] at h
+  unfold applies at happ
+  simp only [happ, if_true] at h
+  cases hr : (runEntry cfg e w).1 with
+  | ret v => rw [hr] at h; simp [hval] at h
+  | outcome o tl => rw [hr] at h; simp at h
+  | raised r =>
+    rw [hr] at h
+    obtain ⟨h1, h2, h3, h4⟩ := hres r hr
+    simp only [raisedOk, h3, Bool.or_false] at h
+    cases r <;> simp_all [opRaised, fieldsOk]
+
+/-- **exhausted_fields.**  A RetryExhaustedError that comes out of call() and was made by the
+    library (neither the operation nor a callback raised it) describes the final attempt:
+    `attempts` = number of invocations; the failure it reports was recorded for the LAST
+    invocation; `last_class` is that failure's first classification; for a result-caused failure
+    `last_result` is the last returned object and `last_exception` is None; for an exception-caused
+    failure `last_exception` is the last raised exception, `last_result` is None, and the sleep
+    handler deferred; `stop_reason` is SCHEDULED exactly when the handler deferred and then
+    `next_sleep_s` is the delay the handler was offered, otherwise None. -/
+theorem exhausted_fields (f : ExhaustedFields)
+    (happ : applies cfg e (runEntry cfg e w).2.trace.reverse = true)
+    (hr : (runEntry cfg e w).1 = .raised (.libExhausted f))
+    (hcb : raisedByCallback (runEntry cfg e w).2.trace.reverse (.libExhausted f) = false)
+    (hop : opRaised (run cfg (runEntry cfg e w).2.trace.reverse) (.libExhausted f) = false) :
+    fieldsOk (run cfg (runEntry cfg e w).2.trace.reverse) f = true := by
+  have h := call_surfaces_last cfg e w
+  rw [ok_unfold, hr] at h
+  unfold applies at happ
+  simpa only [happ, if_true, raisedOk, hcb, hop, Bool.false_and, Bool.false_or] using h
+
+/-- the library's "exhausted with no captured exception" RuntimeError only for `max_attempts = 0` -/
+theorem runtime_error_only_without_attempts
+    (happ : applies cfg e (runEntry cfg e w).2.trace.reverse = true)
+    (hr : (runEntry cfg e w).1 = .raised .libRuntimeError)
+    (hcb : raisedByCallback (runEntry cfg e w).2.trace.reverse .libRuntimeError = false)
+    (hop : opRaised (run cfg (runEntry cfg e w).2.trace.reverse) .libRuntimeError = false) :
+    cfg.maxAttempts = 0 ∧ (run cfg (runEntry cfg e w).2.trace.reverse).ops = 0 := by
+  have h := call_surfaces_last cfg e w
+  rw [ok_unfold, hr] at h
+  unfold applies at happ
+  simpa [happ, raisedOk, hcb, hop] using h
+
+end conjuncts
+
+/-! Non-vacuity.  The hypotheses above are about results of `runEntry`; kernel-evaluating the monadic
+    model inside a Props file is ruled out (LOOP_PROOF_GUIDE), so the instances are exhibited through
+    the compiled driver: `harness/families/loop.py` (stop-reason × entry-point histogram in its
+    `distribution`) drives thousands of runs in which each hypothesis set is met — `ret` results,
+    `raise ordinary:…` results that are the last op's, `libExhausted` with SCHEDULED and with
+    result-caused hard stops, and `libRuntimeError` for `max_attempts=0` — and evaluates this very
+    monitor on them.  At the level of the monitor alone: -/
+
+example : Mon.C04.ok {} .call
+    [(.op 1, .raise (.ordinary 1 .transient) 0), (.classify "o1", .klass ⟨.transient, none⟩ 0),
+     (.op 2, .value 7 0)] (.ret 7) = true := by decide
+
+example : Mon.C04.ok {} .call
+    [(.op 1, .raise (.ordinary 1 .transient) 0), (.classify "o1", .klass ⟨.transient, none⟩ 0),
+     (.op 2, .raise (.ordinary 2 .permanent) 0), (.classify "o2", .klass ⟨.permanent, none⟩ 0)]
+    (.raised (.ordinary 1 .transient)) = false := by decide
 
 end Redress.Props.C04
